@@ -343,6 +343,26 @@ def run_recorded(ctx):
                     rcp = {"header": {"apu": v}}
             ops.append(("jwe.enc", {"jwe": jwe, "rcp": rcp, "jwk": pool["EC-P384"], "pt": pts[4].hex(), "rand": rng.randbytes(200).hex(), "_wrap": "ECDH-ES",
                                     "_zip": False, "_expect_ok": True, "_why": "apu %s over %s" % (layers[hi], layers[lo])}))
+    # parameters the key-management algorithm GENERATES (PBES2 salt, ECDH-ES ephemeral key, GCMKW iv and tag), already
+    # present in one of the three headers of the template: whatever the library does (refuse, overwrite, honour), the
+    # merged header of the result must name what was applied - so the result, if any, decrypts
+    gen_params = [("PBES2-HS256+A128KW", "correct horse", {"p2c": 1000}, [("p2s", "AAAAAAAAAAAAAAAA"), ("p2s", "")]),
+                  ("ECDH-ES", pool["EC-P256"], {}, [("epk", K.public(pool["EC-P256-b"])), ("epk", {}), ("apv", "Qm9i")]),
+                  ("ECDH-ES+A128KW", pool["EC-P256"], {}, [("epk", K.public(pool["EC-P256-b"]))]),
+                  ("A128GCMKW", pool["oct-16"], {}, [("iv", "AAAAAAAAAAAAAAAA"), ("tag", "AAAAAAAAAAAAAAAAAAAAAA"), ("iv", "")]),
+                  ("A256KW", pool["oct-32"], {}, [("epk", K.public(pool["EC-P256-b"])), ("p2s", "AAAAAAAAAAAAAAAA"), ("iv", "AAAAAAAAAAAAAAAA")])]
+    for w, key, extra, params in gen_params:
+        for name, val in params:
+            for place in layers:
+                jwe, rcp = {"protected": dict({"enc": "A128GCM", "alg": w}, **extra)}, {}
+                if place == "protected":
+                    jwe["protected"][name] = val
+                elif place == "unprotected":
+                    jwe["unprotected"] = {name: val}
+                else:
+                    rcp = {"header": {name: val}}
+                ops.append(("jwe.enc", {"jwe": jwe, "rcp": rcp, "jwk": key, "pt": pts[4].hex(), "rand": rng.randbytes(300).hex(), "_wrap": w,
+                                        "_zip": False, "_why": "%s given by the caller in the %s header (%s)" % (name, place, w)}))
     # the key's alg contradicts the header's
     for (wa, la), (wb, lb) in itertools.permutations(kws[:3], 2):
         ops.append(("jwe.enc", {"jwe": {"protected": {"enc": "A128GCM", "alg": wa}}, "jwk": octk(la, alg=wb), "pt": pts[1].hex(),
